@@ -418,7 +418,7 @@ def check_tabulate(case):
 
 
 SUBS = [
-    Sub("window", window_st, check_window, quick=4000, thorough=160000, budget_quick=60, budget_thorough=400),
-    Sub("borders", borders_st, check_borders, quick=3000, thorough=120000, budget_quick=60, budget_thorough=400),
-    Sub("tabulate", tab_st, check_tabulate, quick=160, thorough=3200, budget_quick=70, budget_thorough=400),
+    Sub("window", window_st, check_window, quick=4000, thorough=80000, budget_quick=60, budget_thorough=400),
+    Sub("borders", borders_st, check_borders, quick=3000, thorough=60000, budget_quick=60, budget_thorough=400),
+    Sub("tabulate", tab_st, check_tabulate, quick=160, thorough=2400, budget_quick=70, budget_thorough=400),
 ]
